@@ -1129,14 +1129,15 @@ def o_c20(recs):
             # whatever the arguments: a `config` that is ACCEPTED never leaves a file no command can load
             # (F51: an empty section name or a line break in an argument did), and one that must be refused
             # (empty section, line break) changes nothing
-            hostile = sec == b"" or b"\n" in args[0] or b"\n" in val
+            hostile = sec == b"" or b"\n" in args[0] or b"\n" in val \
+                or b"=" in key or b"\t" in key or key != key.strip(b" \t\n\v\f\r")   # F54: read back as another key
             if r.res.cls == "ok":
                 after_any = parse_cfg_file(a.gcfg if glob else a.lcfg)
                 if after_any in (None, "bad"):
                     bad.append((i, "config exited 0 and left %s config file unreadable" % ("the global" if glob else "the local")))
                     continue
                 if hostile:
-                    bad.append((i, "config with an empty section name or a line break in an argument was accepted"))
+                    bad.append((i, "config that must be refused (empty section name, line break, or a key that reads back as another key) was accepted"))
                     continue
             elif hostile:
                 if not unchanged(b, a):
